@@ -43,9 +43,10 @@ type Op struct {
 	Regex        string `json:"regex,omitempty"` // "" | any (a custom compiler whose matcher accepts everything) | none (rejects everything) | panic
 	Auth         string `json:"auth,omitempty"`  // ok | fail | read_ok | panic
 
-	Status      int         `json:"status,omitempty"`
-	RespHeaders [][2]string `json:"resp_headers,omitempty"`
-	RespBody    string      `json:"resp_body,omitempty"`
+	Status       int         `json:"status,omitempty"`
+	RespHeaders  [][2]string `json:"resp_headers,omitempty"`
+	RespBody     string      `json:"resp_body,omitempty"`
+	CancelOnRead bool        `json:"cancel_on_read,omitempty"` // vresp: the call's context is cancelled when the body is first read
 
 	Schema string `json:"schema,omitempty"`
 	Value  string `json:"value,omitempty"`
@@ -118,6 +119,34 @@ func verdict(err error) string {
 	}
 	sort.Strings(parts)
 	return "reject[" + strings.Join(parts, ",") + "]"
+}
+
+// cancellingBody is a response body whose first Read cancels the caller's
+// context; like any stream it keeps state that Read and Close both touch.
+type cancellingBody struct {
+	r      *strings.Reader
+	cancel func()
+	reads  int
+	closed bool
+}
+
+func (b *cancellingBody) Read(p []byte) (int, error) {
+	b.reads++
+	if b.reads == 1 {
+		b.cancel()
+	}
+	if b.closed {
+		return 0, errors.New("read after close")
+	}
+	if len(p) > 7 {
+		p = p[:7] // several reads
+	}
+	return b.r.Read(p)
+}
+
+func (b *cancellingBody) Close() error {
+	b.closed = true
+	return nil
 }
 
 // floats puts the floats JSON cannot express where the value names them.
@@ -338,7 +367,15 @@ func (o Op) Exec(sh *Shared, marker string) (out string) {
 			RequestValidationInput: &openapi3filter.RequestValidationInput{Request: req, PathParams: pp, Route: route, Options: opts},
 			Status:                 o.Status, Header: h, Body: io.NopCloser(strings.NewReader(o.RespBody)), Options: opts,
 		}
-		verr := openapi3filter.ValidateResponse(context.Background(), in)
+		ctx := context.Background()
+		if o.CancelOnRead {
+			// the caller's context ends while the body is being read (the first Read of the body is when)
+			c, cancel := context.WithCancel(ctx)
+			defer cancel()
+			ctx = c
+			in.Body = &cancellingBody{r: strings.NewReader(o.RespBody), cancel: cancel}
+		}
+		verr := openapi3filter.ValidateResponse(ctx, in)
 		var after []byte
 		if in.Body != nil {
 			after, _ = io.ReadAll(in.Body)
